@@ -347,6 +347,8 @@ class Interp:
             return bytes_ref(data)
         if ch0 == "'":
             return ord(parse_char_lit(c))
+        if c == '!missing-capture':
+            raise Unsupported('closure captures that rustc\'s MIR printer omits could not be reconstructed')
         if c.startswith('ZeroSized: '):
             return self.zst(c[11:], fr)
         if c.startswith('b\''):
@@ -626,7 +628,8 @@ class Interp:
             c_env = dict(fr.env)
             return ClosureWithEnv(c, c_env) if False else set_closure_env(c, c_env)
         if k == 'coroutine':
-            body = self.coroutine_body(fr.func)
+            loc = rv[1][rv[1].index('@') + 1:-1].replace(' (#0)', '')
+            body = getattr(self.prog, 'body_by_loc', {}).get(loc) or self.coroutine_body(fr.func)
             ups = [self.operand(fr, o) for _, o in rv[2]]
             return Coroutine(body, ups, [n for n, _ in rv[2]], dict(fr.env))
         if k == 'len':
